@@ -444,6 +444,87 @@ def check_number_spelling(run: Run, rule: str) -> None:
     run.control(rule, "format(v, '.15g') is recognised as a precision-limited spelling", isinstance(ctl, ast.Call) and ctl.args[1].value not in _EXACT_SPECS)  # type: ignore[attr-defined]
 
 
+# ----------------------------------------------------------------------------- equality between kinds
+def _bool_const(e: ast.AST) -> bool:
+    return isinstance(e, ast.Constant) and isinstance(e.value, bool)
+
+
+def _bool_keyed_findings(tree: ast.AST, tables: dict[str, ast.Dict]):
+    """(node, key expression, what) for every lookup by equality / hash in a collection that holds True / False, made with a key
+    that is not known to be a bool: 1 == True and 0 == False (also 1.0, 0.0), with equal hashes"""
+    from ..cfg import CFG, atomic_conditions
+
+    funcs = [f for f in ast.walk(tree) if isinstance(f, (ast.FunctionDef, ast.AsyncFunctionDef))]
+    for f in funcs:
+        local = dict(tables)
+        for a in ast.walk(f):
+            if isinstance(a, (ast.Assign, ast.AnnAssign)) and isinstance(a.value, ast.Dict) and any(k is not None and _bool_const(k) for k in a.value.keys):
+                for t in (a.targets if isinstance(a, ast.Assign) else [a.target]):
+                    if isinstance(t, ast.Name):
+                        local[t.id] = a.value
+        sites = []
+        for c in ast.walk(f):
+            key = None
+            what = None
+            if isinstance(c, ast.Call) and isinstance(c.func, ast.Attribute) and c.func.attr in ("get", "pop", "setdefault") and c.args and ((isinstance(c.func.value, ast.Name) and c.func.value.id in local) or (isinstance(c.func.value, ast.Dict) and any(k is not None and _bool_const(k) for k in c.func.value.keys))):
+                key, what = c.args[0], f"`{ast.unparse(c.func.value)[:40]}.{c.func.attr}(...)`: a table keyed by True / False"
+            elif isinstance(c, ast.Subscript) and isinstance(c.ctx, ast.Load) and ((isinstance(c.value, ast.Name) and c.value.id in local) or (isinstance(c.value, ast.Dict) and any(k is not None and _bool_const(k) for k in c.value.keys))) and not isinstance(c.slice, ast.Slice):
+                key, what = c.slice, f"`{ast.unparse(c.value)[:40]}[...]`: a table keyed by True / False"
+            elif isinstance(c, ast.Compare) and len(c.ops) == 1 and isinstance(c.ops[0], (ast.In, ast.NotIn)):
+                coll = c.comparators[0]
+                if (isinstance(coll, ast.Name) and coll.id in local) or (isinstance(coll, (ast.Tuple, ast.List, ast.Set)) and any(_bool_const(e) for e in coll.elts)) or (isinstance(coll, ast.Dict) and any(k is not None and _bool_const(k) for k in coll.keys)):
+                    key, what = c.left, f"membership in `{ast.unparse(coll)[:40]}`, which holds True / False"
+            elif isinstance(c, ast.Compare) and len(c.ops) == 1 and isinstance(c.ops[0], (ast.Eq, ast.NotEq)) and (_bool_const(c.comparators[0]) or _bool_const(c.left)):
+                key = c.left if _bool_const(c.comparators[0]) else c.comparators[0]
+                what = f"`{ast.unparse(c)}`: equality with a bool constant"
+            if key is None or isinstance(key, ast.Constant):
+                continue
+            sites.append((c, key, what))
+        if not sites:
+            continue
+        cfg = CFG(f)
+        for c, key, what in sites:
+            ktxt = ast.unparse(key)
+            # the statement / test node that holds the site
+            holder = next((n for n in cfg.nodes if n.ast is not None and any(x is c for x in ast.walk(n.ast))), None)
+            guarded = False
+            if holder is not None:
+                for t, val in atomic_conditions(cfg, holder.id):
+                    if val and isinstance(t, ast.Call) and isinstance(t.func, ast.Name) and t.func.id == "isinstance" and len(t.args) == 2 and ast.unparse(t.args[0]) == ktxt and ast.unparse(t.args[1]) == "bool":
+                        guarded = True
+                    if val and isinstance(t, ast.Compare) and ast.unparse(t) in (f"type({ktxt}) is bool", f"type({ktxt}) == bool"):
+                        guarded = True
+            # `isinstance(k, bool) and k in T` inside one expression
+            par = getattr(c, "_parent", None)
+            if isinstance(par, ast.BoolOp) and isinstance(par.op, ast.And):
+                before = par.values[: next(i for i, v in enumerate(par.values) if v is c)]
+                if any(isinstance(v, ast.Call) and ast.unparse(v) == f"isinstance({ktxt}, bool)" for v in before):
+                    guarded = True
+            yield f, c, key, what, guarded
+
+
+def check_bool_keyed_tables(run: Run, rule: str) -> None:
+    run.rule(rule, "no lookup by equality confuses 1 with True or 0 with False: a dict / tuple / set that holds True or False is searched (get, [], in, ==) only with a key that is known to be a bool (isinstance(k, bool) on the way), because 1 == True, 0 == False, 1.0 == True with equal hashes - the numbers 0 and 1 would be rendered, converted or judged as false / true", 1)
+    n = 0
+    for m in run.project.modules.values():
+        tables = {}
+        for st in m.tree.body:
+            if isinstance(st, (ast.Assign, ast.AnnAssign)) and isinstance(st.value, ast.Dict) and any(k is not None and _bool_const(k) for k in st.value.keys):
+                for t in (st.targets if isinstance(st, ast.Assign) else [st.target]):
+                    if isinstance(t, ast.Name):
+                        tables[t.id] = st.value
+        for f, c, key, what, guarded in _bool_keyed_findings(m.tree, tables):
+            n += 1
+            q = getattr(f, "_qualname", f.name)
+            run.instance(rule, m.loc(c), f"{q}: {what} with key `{ast.unparse(key)[:40]}`" + (" (known to be a bool)" if guarded else ""), ok=guarded)
+            if not guarded:
+                run.violation(rule, m, q, c, f"{what} is searched with `{ast.unparse(key)[:60]}`, which may be a number: 1 and 1.0 find the entry of True, 0 and 0.0 the entry of False (equal and equal hashes), so those numbers come out as true / false")
+    run.instance(rule, "src/octave_mcp", f"{n} lookup(s) in collections holding True / False examined in {len(run.project.modules)} modules", ok=True, nontrivial=False)
+    ctl = ast.parse("T = {None: 'null', True: 'true', False: 'false'}\ndef f(v):\n    return T.get(v, str(v))\n")
+    fired = [g for *_x, g in _bool_keyed_findings(ctl, {"T": ctl.body[0].value})]  # type: ignore[attr-defined]
+    run.control(rule, "a sample table keyed by None / True / False searched with an unguarded value is recognised", fired == [False])
+
+
 # ----------------------------------------------------------------------------- memoisation
 def check_untyped_caches(run: Run, rule: str) -> None:
     """functools.lru_cache / cache key their arguments by equality: True == 1 == 1.0 and False == 0 == 0.0 share a slot unless
@@ -598,6 +679,7 @@ def check(run: Run) -> None:
     c05.check_prelex_text(run, "R04.7")
     check_untyped_caches(run, "R04.8")
     check_number_spelling(run, "R04.10")
+    check_bool_keyed_tables(run, "R04.11")
     check_bool_before_int(run, "R04.4", [("core.emitter", "emit_value"), ("core.constraints", "TypeConstraint.evaluate"), ("core.constraints", "RangeConstraint.evaluate"), ("core.validator", "Validator._validate_type")])
     check_number_lexemes(run, "R04.5", lm)
     run.rule("R04.9", "only str values are ever wrapped in double quotes by the emitter (a quoted 5 / true / null is read back as a string): every quoting site is control-dependent on isinstance(<value>, str) (shared with C15 R15.6, C18)", 4)
